@@ -128,6 +128,8 @@ def run(ctx):
                       "watchers of every expression that reads those parameters are among them", floor=1)
     ctx.rule("R09.p", "invalidation before consumers: every internal watcher that only invalidates an expression's cache (rx._invalidate_*) is registered with a precedence strictly lower than "
                       "every internally installed consumer (the sync of references, depends(watch=True) callers), so that within one batch no consumer reads a cache whose invalidation is still queued", floor=2)
+    ctx.rule("R09.q", "full_groupby model: the grouping behind the invalidation watchers (param._utils.full_groupby), interpreted on an interleaved list keyed by owner, yields one group per owner "
+                      "holding all of its parameters -- none is dropped when another owner's parameter sits between two of them", floor=1)
     ctx.rule("R09.h", "watch delivery: reactive_ops._watch registers its callback with bind(<cb>, self._reactive, watch=True); inside the callback every path on which a function was given "
                       "hands the value to it (directly or through the async executor), and the callback reads no state of the shared .rx namespace object", floor=3)
     ctx.rule("R09.j", "where model: reactive_ops.where interpreted abstractly; the callbacks it binds to the dependencies of each branch are called under six current conditions "
@@ -363,6 +365,8 @@ def run(ctx):
     from checks import rx_model
     rx_model.report(ctx, "R09.i")
     rx_model.value_setter_model(ctx, "R09.v")
+    from checks.shared import full_groupby_model
+    full_groupby_model(ctx, "R09.q")
     from checks.shared import invalidation_before_consumers
     invalidation_before_consumers(ctx, "R09.p")
     from checks import update_model
